@@ -9,7 +9,10 @@ ops (see harness/cmd/sentcache/main.go):
   resize kept dropped workers | adv ns
 ext lines used:
   rhash <reason> = <h>          wyhash of the reason under the cache's seed          (rk)
-  chk = 0|1                     the real filter's answer for the id                  (cs, ct)
+  chk = 0|1                     the library's answer for the full id on the cache's current filter
+                                object, asked by the harness (not through the cache)  (cs, ct)
+  fp <id> = 0|1                 could the library, keyed on the full id, contain it given the ids
+                                recorded as dropped (single-element reference filters) (cs, ct; monitor)
   drained = k                   how many queued ids the call took                    (drain, maint)
   slots <cap> = <n>             library sizing of NewFilter(cap)                     (maint)
   cur <count> <ids> / fut <count> <ids> | fut nil
@@ -177,6 +180,7 @@ structure MSt where
   expFut : Option (List Nat) := none
   cntFut : Nat := 0
   maybeDropped : List Nat := []                  -- ever recorded dropped, or the filter said so
+  recorded : List Nat := []                      -- ever recorded dropped (nothing else)
   refreshed : AList Nat Int := []                -- id ↦ instant of its last drop record / dropped CheckSpan
 
 def fail (sig what : String) : Fail := { prop := "C31", sig := s!"C31:{sig}", what := what }
@@ -186,6 +190,7 @@ def touch (m : MSt) (id : Nat) : MSt :=
 
 def recDropM (m : MSt) (id : Nat) : MSt :=
   { m with maybeDropped := if m.maybeDropped.contains id then m.maybeDropped else id :: m.maybeDropped,
+           recorded := if m.recorded.contains id then m.recorded else id :: m.recorded,
            refreshed := AList.put m.refreshed id m.now,
            queue := if m.queue.length < baseCfg.depth then m.queue ++ [id] else m.queue }
 
@@ -278,9 +283,18 @@ def scMon (m : MSt) (op : List String) (exts : List (List String)) (obs : Option
           if kv toks "r" == some (toString rate) && kv toks "why" == some (toString reason) then []
           else [fail "kept-wrong-rate-or-reason" s!"trace {id} recorded kept with rate {rate} reason {reason}, answered {o}"]
       else []
+    -- a "dropped" answer for an id never recorded as dropped is legitimate only as a false positive
+    -- of the filter library keyed on the full id; `ext fp` is the library's own verdict on that
+    let explicable := match findExt exts "fp" with
+      | some [_, "=", b] => b != "0"
+      | _ => true
+    let fsF :=
+      if isDropped && !m.recorded.contains id && !explicable then
+        [fail "false-dropped-answer:not-a-filter-false-positive" s!"trace {id} was never recorded dropped and the filter library, keyed on the full id, cannot contain it, yet {which} answered dropped"]
+      else []
     let m := if isKept then touch m id else m
     let m := if which == "cs" && isDropped then { m with refreshed := AList.put m.refreshed id m.now } else m
-    (m, fsD ++ fsK ++ fsR)
+    (m, fsD ++ fsK ++ fsR ++ fsF)
   | _, _ => (m, [])
 
 def comp : Component OSt MSt where
